@@ -18,6 +18,11 @@ class References:
     has_undef_overlaps = self._undef_overlaps()
     retval = []
     is_circular = self.is_circular()
+    n_required = len(self.segment_names) - (0 if is_circular else 1)
+    if not has_undef_overlaps and len(self.overlaps) < n_required:
+      raise gfapy.InconsistencyError(
+        "Path has {} oriented segments, ".format(len(self.segment_names))+
+        "but {} overlaps".format(len(self.overlaps)))
     for i in range(len(self.segment_names)):
       j = i+1
       if j == len(self.segment_names):
